@@ -229,6 +229,8 @@ func checkC03(c *Check) {
 	c03R7(c, R, m)
 	// the code-for-token request must reach the provider as it was built (C04.R2's transport rule)
 	transportPreservesRequest(c, "C03.R5")
+	// a redirect answer keeps its own Location and cookie until it is sent (no shared header backing array)
+	headersOwnBacking(c, "C03.R3", R)
 	// … over a TLS configuration that carries the trusted CA (C20.R4's pool rule)
 	poolInsertIsFinal(c, "C03.R5")
 
